@@ -183,17 +183,18 @@ def run_case(ctx, nc, spec, si, dname, uname, vname, rname, cache, want, _shrink
                 ctx.evaluated()
                 if gout[0] != "ok" or not oracles.same_identities(gout[1], lst):
                     viol(f"{name}:generator_differs", f"list form {g.names(lst)} but generator form {_nm(g, gout)}")
-                # ff_result only removes entries
-                if res is not None:
-                    rout = oracles.outcome(lf, uni, start, ff_result=res, **kw)
-                    ctx.evaluated()
-                    ctx.count("ff_result_cases")
-                    expect = [x for x in lst if res(x)]
-                    if len(expect) != len(lst):
-                        ctx.count("ff_result_removed_something")
-                    if rout[0] != "ok" or not oracles.same_identities(rout[1], expect):
-                        viol(f"{name}:ff_result", f"with ff_result={rname}: {_nm(g, rout)}; unfiltered {g.names(lst)} "
-                             f"minus rejected = {g.names(expect)}")
+            # ff_result only removes entries: the filtered listing is the unfiltered ORDER minus the rejected vertices
+            # (part of C06's set claim and of C07's order claim alike)
+            if res is not None:
+                rout = oracles.outcome(lf, uni, start, ff_result=res, **kw)
+                ctx.evaluated()
+                ctx.count("ff_result_cases")
+                expect = [x for x in lst if res(x)]
+                if len(expect) != len(lst):
+                    ctx.count("ff_result_removed_something")
+                if rout[0] != "ok" or not oracles.same_identities(rout[1], expect):
+                    viol(f"{name}:ff_result", f"with ff_result={rname}: {_nm(g, rout)}; unfiltered {g.names(lst)} "
+                         f"minus rejected = {g.names(expect)}")
         if "C06" in want and len(results) == 3 and not expect_ni:
             kw = dict(direction_sensitive=d, unknown_handling=u, ff_via=via)
             for n1, n2 in (("dft_recursive", "dft_recursive"), ("bft", "dft_iterative"), ("dft_recursive", "bft")):
@@ -338,7 +339,7 @@ def case_stream(ctx, rng: random.Random, n_random, nmax, mmax, exhaustive_n=3, b
             continue
         ctx.count("exhaustive_digraphs")
         for si in range(exhaustive_n):
-            for dname in DIRS:
+            for dname in oracles.DIR_NAMES:
                 yield spec, si, dname, "ERROR", "none", "none", False
     # all mixed D/U graphs on 2 vertices
     for spec in graphs.all_small_mixed(2):
@@ -346,7 +347,7 @@ def case_stream(ctx, rng: random.Random, n_random, nmax, mmax, exhaustive_n=3, b
         if k % ctx.nshards != ctx.shard:
             continue
         for si in range(2):
-            for dname in DIRS:
+            for dname in oracles.DIR_NAMES:
                 yield spec, si, dname, "ERROR", "none", "even", False
     frng = random.Random(12345)
     fam = graphs.family_specs(frng, sizes=(4, 7, 12) + tuple(big))
@@ -360,7 +361,7 @@ def case_stream(ctx, rng: random.Random, n_random, nmax, mmax, exhaustive_n=3, b
         if not starts:
             continue
         for si in (starts[0], starts[len(starts) // 2], starts[-1]):
-            for dname in DIRS:
+            for dname in oracles.DIR_NAMES:
                 for uname in ("NONNEIGHBOR", "NEIGHBOR", "ERROR"):
                     yield spec, si, dname, uname, frng.choice(list(zoo.NB_FILTERS)), frng.choice(list(zoo.RES_FILTERS)), False
     for n in range(n_random):
